@@ -70,13 +70,13 @@ Fixpoint poll_go (M: machine) (ph: phase M) (b: option builder) (s: list (tok M)
 Definition poll (M: machine) := poll_go M (idle M).
 
 (* the harness loop: poll while the script is non-empty, then once more; each result with the number of tokens left *)
-Fixpoint polls (M: machine) (fuel: nat) (b: option builder) (s: list (tok M)) : list (res * nat) * option builder :=
+Fixpoint polls (M: machine) (fuel: nat) (b: option builder) (s: list (tok M)) : list (res * N) * option builder :=
   match fuel with
-  | O => ([(ROutOfFuel, length s)], b)
+  | O => ([(ROutOfFuel, nlen s)], b)
   | S f => match s with
-           | [] => let '(r, b', _) := poll M b [] in ([(r, 0%nat)], b')
+           | [] => let '(r, b', _) := poll M b [] in ([(r, 0)], b')
            | _ => let '(r, b', s') := poll M b s in
-                  let '(rs, bf) := polls M f b' s' in ((r, length s') :: rs, bf)
+                  let '(rs, bf) := polls M f b' s' in ((r, nlen s') :: rs, bf)
            end
   end.
 
